@@ -96,6 +96,33 @@ def generate(repo):
     if not code_kws:
         raise TranslateError("no code keyword found under share/keywords (PYINPUT, DYNAMICR expected)")
 
+    # str::clean (Parser.cpp), slow path: after a copied code-keyword block, is the text behind it
+    # tested for a code keyword again (candidate repair design.d/C01.code_block.fix.patch) or
+    # cleaned as an ordinary line (the code as it is)?  Two shapes are understood.
+    ppath = os.path.join(repo, "opm/input/eclipse/Parser/Parser.cpp")
+    psrc = strip_comments(open(ppath).read())
+    mm = re.search(r"inline\s+std::string\s+clean\s*\(.*?\)\s*\{(.*?)\n\}\n", psrc, re.S)
+    if not mm:
+        raise TranslateError("Parser.cpp: str::clean() not found")
+    cbody = re.sub(r"\s+", "", mm.group(1))
+    head = ("autocount=std::count_if(code_keywords.begin(),code_keywords.end(),[&str](conststd::pair<std::string,std::string>&code_pair)"
+            "{returnstr.find(code_pair.first)!=std::string::npos;});if(count==0)returnfast_clean(str);else{std::stringdst;"
+            "dst.resize(str.size());std::string_viewinput(str),line;autodsti=dst.begin();while(true){")
+    loop = ("for(constauto&code_pair:code_keywords){constauto&keyword=code_pair.first;if(starts_with(input,keyword)){"
+            "std::stringend_string=code_pair.second;autoend_pos=input.find(end_string);%sif(end_pos==std::string::npos){"
+            "std::copy(input.begin(),input.end(),dsti);dsti+=std::distance(input.begin(),input.end());"
+            "input=std::string_view(input.end(),0);break;}else{end_pos+=end_string.size();"
+            "std::copy(input.begin(),input.begin()+end_pos,dsti);dsti+=end_pos;*dsti++='\\n';"
+            "input=std::string_view(input.begin()+end_pos+1,input.end()-(input.begin()+end_pos+1));break;}}}")
+    tail = ("if(getline(input,line)){line=trim(strip_comments(line));std::copy(line.begin(),line.end(),dsti);"
+            "dsti+=std::distance(line.begin(),line.end());*dsti++='\\n';}elsebreak;}dst.resize(std::distance(dst.begin(),dsti));returndst;}")
+    if cbody == head + (loop % "") + tail:
+        retest = False
+    elif cbody == head + "boolcode_block=false;" + (loop % "code_block=true;") + "if(code_block)continue;" + tail:
+        retest = True
+    else:
+        raise TranslateError("Parser.cpp: str::clean() has a shape the lexer model does not know: " + cbody[:300])
+
     def blist(t):
         return "[" + ", ".join("true" if b else "false" for b in t) + "]"
 
@@ -113,8 +140,11 @@ def generate(repo):
            f"def outColumns : Nat := {columns}",
            f"def outFlushPendingDefaults : Bool := {'true' if flush else 'false'}",
            "",
+           "/-- `str::clean`: the text behind a copied code-keyword block is tested for a code keyword again -/",
+           f"def cleanRetestsCodeKeyword : Bool := {'true' if retest else 'false'}",
+           "",
            "/-- (keyword, end string) of every code keyword defined under share/keywords -/",
            "def codeKeywords : List (List UInt8 × List UInt8) := [" +
            ", ".join(f"({bytes_of(a)}, {bytes_of(b)})" for a, b in code_kws) + "]",
            "", "end OpmVerif.Gen.RawConsts", ""]
-    return {"module": "OpmVerif.Gen.RawConsts", "file": "RawConsts.lean", "text": "\n".join(out), "sources": [path, opath, cpath] + code_sources}
+    return {"module": "OpmVerif.Gen.RawConsts", "file": "RawConsts.lean", "text": "\n".join(out), "sources": [path, opath, cpath, ppath] + code_sources}
